@@ -171,84 +171,84 @@ def root : TH → Trie.Bytes
 
 end TH
 
-/-- `leafHash` -/
-def mkLeaf (c : HashCtx) (h : Nat) (p k : List Bool) (v : Trie.Bytes) : TH :=
-  .leaf k v (c.H (c.enc (p ++ k) ++ v ++ [byteOf h]))
+/-- `leafHash`; `rp` is the path prefix in reverse (cheap to extend on the way down) -/
+def mkLeaf (c : HashCtx) (h : Nat) (rp k : List Bool) (v : Trie.Bytes) : TH :=
+  .leaf k v (c.H (c.enc (rp.reverseAux k) ++ v ++ [byteOf h]))
 
 /-- `interiorHash` -/
 def mkNode (c : HashCtx) (l r : TH) : TH := .node l r (c.H (l.ref ++ r.ref))
 
 abbrev ValFnH := Nat → List Bool → TH → Trie.Bytes
 
-def storeNodeUH (val : ValFnH) (un : UN) (h : Nat) (p : List Bool) (new : TH) (old : Trie.Bytes) : UN :=
+def storeNodeUH (val : ValFnH) (un : UN) (h : Nat) (rp : List Bool) (new : TH) (old : Trie.Bytes) : UN :=
   let k := new.root
-  let un1 := setU un k (val h p new)
+  let un1 := setU un k (val h rp new)
   if !old.isEmpty && k == old then un1 else delU un1 old
 
 abbrev ResUH := (TH × Bool) × UN
 
-def interiorUH (c : HashCtx) (val : ValFnH) (h : Nat) (p : List Bool) (old : Trie.Bytes) (l r : TH) (un : UN) : ResUH :=
+def interiorUH (c : HashCtx) (val : ValFnH) (h : Nat) (rp : List Bool) (old : Trie.Bytes) (l r : TH) (un : UN) : ResUH :=
   let new := mkNode c l r
-  ((new, false), if h % 4 = 0 then storeNodeUH val un h p new old else un)
+  ((new, false), if h % 4 = 0 then storeNodeUH val un h rp new old else un)
 
-def shortcutUpUH (c : HashCtx) (val : ValFnH) (h : Nat) (p : List Bool) (old : Trie.Bytes) (b : Bool) (k : List Bool)
+def shortcutUpUH (c : HashCtx) (val : ValFnH) (h : Nat) (rp : List Bool) (old : Trie.Bytes) (b : Bool) (k : List Bool)
     (v childHash : Trie.Bytes) (un : UN) : ResUH :=
-  let new := mkLeaf c h p (b :: k) v
+  let new := mkLeaf c h rp (b :: k) v
   ((new, true),
-    if h % 4 = 0 then storeNodeUH val un h p new old
+    if h % 4 = 0 then storeNodeUH val un h rp new old
     else if (h - 1) % 4 = 0 then delU un childHash
     else un)
 
-def moveUpUH (c : HashCtx) (val : ValFnH) (h : Nat) (p : List Bool) (old : Trie.Bytes) (l r : TH) (un : UN) : ResUH :=
+def moveUpUH (c : HashCtx) (val : ValFnH) (h : Nat) (rp : List Bool) (old : Trie.Bytes) (l r : TH) (un : UN) : ResUH :=
   match l, r with
   | .empty, .empty => ((.empty, true), if h % 4 = 0 then delU un old else un)
-  | .empty, .leaf k v hs => shortcutUpUH c val h p old true k v hs un
-  | .leaf k v hs, .empty => shortcutUpUH c val h p old false k v hs un
-  | l, r => interiorUH c val h p old l r un
+  | .empty, .leaf k v hs => shortcutUpUH c val h rp old true k v hs un
+  | .leaf k v hs, .empty => shortcutUpUH c val h rp old false k v hs un
+  | l, r => interiorUH c val h rp old l r un
 
-def splitCoreUH (c : HashCtx) (val : ValFnH) (h : Nat) (p : List Bool) (old : Trie.Bytes)
+def splitCoreUH (c : HashCtx) (val : ValFnH) (h : Nat) (rp : List Bool) (old : Trie.Bytes)
     (upd : Bool → TH → List (KV Trie.Bytes) → UN → ResUH)
     (l r : TH) (lk rk : List (KV Trie.Bytes)) (un : UN) : ResUH :=
   match lk, rk with
   | [], _ :: _ =>
     let ((r', d), un1) := upd true r (tails rk) un
-    if d then moveUpUH c val h p old l r' un1 else interiorUH c val h p old l r' un1
+    if d then moveUpUH c val h rp old l r' un1 else interiorUH c val h rp old l r' un1
   | _ :: _, [] =>
     let ((l', d), un1) := upd false l (tails lk) un
-    if d then moveUpUH c val h p old l' r un1 else interiorUH c val h p old l' r un1
+    if d then moveUpUH c val h rp old l' r un1 else interiorUH c val h rp old l' r un1
   | _, _ =>
     let ((l', dl), un1) := upd false l (tails lk) un
     let ((r', dr), un2) := upd true r (tails rk) un1
-    if dl || dr then moveUpUH c val h p old l' r' un2 else interiorUH c val h p old l' r' un2
+    if dl || dr then moveUpUH c val h rp old l' r' un2 else interiorUH c val h rp old l' r' un2
 
-def splitUH (c : HashCtx) (val : ValFnH) (h : Nat) (p : List Bool) (old : Trie.Bytes)
+def splitUH (c : HashCtx) (val : ValFnH) (h : Nat) (rp : List Bool) (old : Trie.Bytes)
     (upd : Bool → TH → List (KV Trie.Bytes) → UN → ResUH)
     (l r : TH) (kvs : List (KV Trie.Bytes)) (un : UN) : ResUH :=
   match l, r, kvs with
   | .empty, .empty, [(k, some v)] =>
-    let new := mkLeaf c h p k v
-    ((new, false), if h % 4 = 0 then storeNodeUH val un h p new old else un)
+    let new := mkLeaf c h rp k v
+    ((new, false), if h % 4 = 0 then storeNodeUH val un h rp new old else un)
   | .empty, .empty, [(_, none)] => ((.empty, true), un)
   | _, _, _ =>
-    splitCoreUH c val h p old upd l r (kvs.takeWhile fun kv => !headBit kv.1) (kvs.dropWhile fun kv => !headBit kv.1) un
+    splitCoreUH c val h rp old upd l r (kvs.takeWhile fun kv => !headBit kv.1) (kvs.dropWhile fun kv => !headBit kv.1) un
 
-/-- `updU` on hash-annotated trees -/
+/-- `updU` on hash-annotated trees (`rp`: the path prefix in reverse) -/
 def updUH (c : HashCtx) (val : ValFnH) : Nat → List Bool → TH → List (KV Trie.Bytes) → UN → ResUH
-  | 0, p, t, kvs, un =>
+  | 0, rp, t, kvs, un =>
     match kvs with
-    | (k, some v) :: _ => let new := mkLeaf c 0 p k v; ((new, false), storeNodeUH val un 0 p new t.root)
+    | (k, some v) :: _ => let new := mkLeaf c 0 rp k v; ((new, false), storeNodeUH val un 0 rp new t.root)
     | (_, none) :: _ => ((.empty, true), delU un t.root)
     | [] => ((.empty, true), un)
-  | h + 1, p, t, kvs, un =>
+  | h + 1, rp, t, kvs, un =>
     let old := if (h + 1) % 4 = 0 then t.root else []
     match t with
     | .leaf sk sv _ =>
       let kvs' := addShortcut kvs sk sv
       let un1 := if (h + 1) % 4 = 0 then delU un old else un
       if kvs'.isEmpty then ((.empty, true), un1)
-      else splitUH c val (h + 1) p old (fun b => updUH c val h (p ++ [b])) .empty .empty kvs' un1
-    | .node l r _ => splitUH c val (h + 1) p old (fun b => updUH c val h (p ++ [b])) l r kvs un
-    | .empty => splitUH c val (h + 1) p old (fun b => updUH c val h (p ++ [b])) .empty .empty kvs un
+      else splitUH c val (h + 1) rp old (fun b => updUH c val h (b :: rp)) .empty .empty kvs' un1
+    | .node l r _ => splitUH c val (h + 1) rp old (fun b => updUH c val h (b :: rp)) l r kvs un
+    | .empty => splitUH c val (h + 1) rp old (fun b => updUH c val h (b :: rp)) .empty .empty kvs un
 
 def descendH : TH → List Bool → Option TH
   | t, [] => some t
